@@ -112,14 +112,15 @@ def run_case(c, tmp):
     r = attempt(lambda: canon_ret(extract_fusion_engine_log(inp, o1, return_counts=True)))
     res['x1'] = {'ret': r, 'out': rd(o1), 'idx': rd(o1[:-6] + '.p1i'), 'input_unchanged': rd(inp) == c['hex'],
                  'input_p1i': rd(inp[:-4] + '.p1i')}
-    # 2. extraction without return_counts, other path
-    o2 = os.path.join(d, 'o2.p1log')
-    r = attempt(lambda: canon_ret(extract_fusion_engine_log(inp, o2)))
-    res['x2'] = {'ret': r, 'out': rd(o2), 'idx': rd(o2[:-6] + '.p1i')}
-    # 2b. save_index=False writes no index
-    o2b = os.path.join(d, 'o2b.p1log')
-    r = attempt(lambda: canon_ret(extract_fusion_engine_log(inp, o2b, save_index=False)))
-    res['x2b'] = {'ret': r, 'out': rd(o2b), 'idx': rd(o2b[:-6] + '.p1i')}
+    if c.get('variants', True):
+        # 2. extraction without return_counts, other path
+        o2 = os.path.join(d, 'o2.p1log')
+        r = attempt(lambda: canon_ret(extract_fusion_engine_log(inp, o2)))
+        res['x2'] = {'ret': r, 'out': rd(o2), 'idx': rd(o2[:-6] + '.p1i')}
+        # 2b. save_index=False writes no index
+        o2b = os.path.join(d, 'o2b.p1log')
+        r = attempt(lambda: canon_ret(extract_fusion_engine_log(inp, o2b, save_index=False)))
+        res['x2b'] = {'ret': r, 'out': rd(o2b), 'idx': rd(o2b[:-6] + '.p1i')}
     if res['x1']['out'] is not None:
         # 3. SPEC for the index: index a copy of the output afresh and let the library save that index
         fr = os.path.join(d, 'fresh.p1log')
